@@ -453,4 +453,224 @@ theorem Acc_bdrop {E : Nat} {s : St} {db : DB} (ha : Acc E s) (hs : s.db = some 
   subst this
   exact OpenB_nil (fun b hb => by cases hb)
 
+/-- a staging call of the live batch (`Batch.Put` / `Batch.Delete`): nothing, a changed staging area, or
+    `flushStagedAndUpdateFile` first -/
+theorem Acc_stageOut {E : Nat} {s s' : St} {db : DB} {b : BatchSt} {must : Prop} (ha : Acc E s) (hs : s.db = some db)
+    (hb : db.batch = some b) (hc : b.committed = false) (hok : ∀ r ∈ b.staged, StagedOK r) (hid : b.id < 2 ^ 64)
+    (o : PolicyP.Dur.StageOut s db b must s') : Acc E s' := by
+  cases o with
+  | same e _ => rw [e]; exact ha
+  | staged b' e hne _ hc' hid' =>
+    rw [e]
+    refine ha.congr hs rfl (fun g hf => hf.congr rfl rfl rfl) rfl rfl rfl ?_
+    intro fl hob
+    obtain ⟨h1, _⟩ := hob.live hb hc
+    exact OpenB_live (b := b') rfl (hc'.trans hc) (fun x hx => by rw [hid']; exact h1 x hx) (fun he => absurd he hne)
+  | flushed b' e hne _ hc' hid' =>
+    rw [e]
+    obtain ⟨db0, g, L0, l, fl, hs0, hf, hlog, h0, hl, hob, hlr⟩ := ha
+    rw [hs] at hs0; cases hs0
+    obtain ⟨h1, _⟩ := hob.live hb hc
+    obtain ⟨g', ps, hf', hlog', hlr', h6⟩ := flushAndRotate_acc hf b hok hid hlr
+    have hidb : b'.id = b.id := by rw [hid', h6]
+    have hcb : b'.committed = false := by rw [hc', h6]; exact hc
+    have htag := asLog_tagged (id := b.id) (ps := ps) hok
+    refine ⟨_, g', L0, l, fl ++ asLog b.id (b.staged.zip ps), rfl, hf'.congr rfl rfl rfl,
+      by rw [hlog', hlog, List.append_assoc], h0, hl, ?_, ?_⟩
+    · refine OpenB_live (b := b') rfl hcb ?_ (fun he => absurd he hne)
+      intro x hx
+      rw [hidb]
+      rcases List.mem_append.mp hx with hx | hx
+      · exact h1 x hx
+      · exact htag x hx
+    · rw [← List.append_assoc, lfold_append, lfold_applyAll _ _ (fun x hx => (htag x hx).2)]
+      exact hlr'.congr rfl rfl rfl
+
+/-- `Commit` of the live batch -/
+theorem Acc_bcommit {E : Nat} {s : St} {db : DB} {b : BatchSt} (ha : Acc E s) (hs : s.db = some db)
+    (hb : db.batch = some b) (hc : b.committed = false) (hok : ∀ r ∈ b.staged, StagedOK r) (hpos : 0 < b.id)
+    (hid : b.id < 2 ^ 63) : Acc E (bcommit s).1 := by
+  by_cases he : b.staged = []
+  · rw [bcommit_empty hs hb hc he]
+    refine ha.congr hs rfl (fun g hf => hf.congr rfl rfl rfl) rfl rfl rfl ?_
+    intro fl hob
+    have := (hob.live hb hc).2 he
+    subst this
+    refine OpenB_nil ?_
+    intro b' hb'
+    simp only [Option.some.injEq] at hb'
+    subst hb'
+    rfl
+  · obtain ⟨db0, g, L0, l, fl, hs0, hf, hlog, h0, hl, hob, hlr⟩ := ha
+    rw [hs] at hs0; cases hs0
+    obtain ⟨h1, _⟩ := hob.live hb hc
+    have hid64 : b.id < 2 ^ 64 := by omega
+    obtain ⟨g1, ps, hf1, hlog1, hlr1, _, h6⟩ :=
+      flushStaged_acc hf { b with committed := true } hok hid64 hlr
+    have hidB : (flushStaged s db { b with committed := true }).2.2.id = b.id := by rw [h6]
+    have hcB : (flushStaged s db { b with committed := true }).2.2.committed = true := by rw [h6]
+    obtain ⟨g2, hf2, hlog2, _⟩ := seal_spec hf1 (flushStaged s db { b with committed := true }).2.2 (by rw [hidB]; exact hid)
+    have htag := asLog_tagged (id := b.id) (ps := ps) hok
+    have htagAll : ∀ x ∈ fl ++ asLog b.id (b.staged.zip ps), x.1.batch = b.id ∧ x.1.typ ≠ 2 := by
+      intro x hx
+      rcases List.mem_append.mp hx with hx | hx
+      · exact h1 x hx
+      · exact htag x hx
+    rw [bcommit_nonempty hs hb hc he]
+    rw [hidB] at hlog2 ⊢
+    refine ⟨_, g2, L0, l ++ (fl ++ asLog b.id (b.staged.zip ps) ++ [(finRec b.id, sealPos
+        (flushStaged s db { b with committed := true }).1 (flushStaged s db { b with committed := true }).2.1 b.id)]), [],
+      rfl, hf2.congr rfl rfl rfl, ?_, h0,
+      Seg_append hl (Seg_block b.id (by omega) _ htagAll (finRec b.id) _ rfl rfl), OpenB_nil ?_, ?_⟩
+    · rw [hlog2, hlog1, hlog]
+      simp only [List.append_assoc, List.append_nil]
+    · intro b' hb'
+      simp only [Option.some.injEq] at hb'
+      subst hb'
+      exact hcB
+    · rw [List.append_nil, ← List.append_assoc, ← List.append_assoc, lfold_append, lfold_cons, lfold_nil,
+        lrec_fin _ _ _ (show (finRec b.id).batch ≠ 0 from by show b.id ≠ 0; omega) rfl,
+        List.append_assoc, ← List.append_assoc l, lfold_append, lfold_applyAll _ _ (fun x hx => (htag x hx).2)]
+      exact hlr1.fin _ rfl rfl rfl
+
+/-- `Merge`: one rotation, no record -/
+theorem Acc_merge {dir : String} {E : Nat} {s : St} {m : BSpec} {dead : Bool} (hq : HInvQ dir s m dead) (ha : Acc E s)
+    (order : List Nat) (ho : order.Nodup) (hsmall : ∀ db, s.db = some db → db.activeId + 1 < 2 ^ 32) :
+    Acc E (merge s order).1 := by
+  obtain ⟨db, hs, _⟩ := hq.2
+  obtain ⟨db0, g0, hs0, _, hi0, _⟩ := hq.1
+  rw [setB_db hs] at hs0
+  cases hs0
+  obtain ⟨h1, h2, _⟩ := merge_spec (setB_db hs none) hi0 order ho (hsmall db hs)
+  have e : merge s order = (setB db.batch (merge (setB none s) order).1, (merge (setB none s) order).2) := by
+    conv => lhs; rw [← setB_restore hs]
+    exact merge_setB _ _ _
+  rw [e]
+  obtain ⟨db', g, L0, l, fl, hs', hf, hlog, h0, hl, hob, hlr⟩ := ha
+  rw [hs] at hs'; cases hs'
+  have hg : g = g0 := PolicyP.Files_unique' hf hi0.files rfl rfl
+  subst hg
+  exact ⟨setBDB db.batch (rotDB (setBDB none db)), g ++ [(db.activeId + 1, [])], L0, l, fl, setB_db h1 _,
+    h2.files.congr rfl rfl rfl, by rw [logOf_new_file]; exact hlog, h0, hl, hob, hlr.congr rfl rfl rfl⟩
+
+theorem Acc_backup {E : Nat} {s : St} {db : DB} (ha : Acc E s) (hs : s.db = some db) (dest : String)
+    (h1 : dest ≠ db.dir) : Acc E (backup s dest).1 := by
+  obtain ⟨X, e⟩ := backup_eq hs dest
+  rw [e]
+  refine ha.congr hs hs ?_ rfl rfl rfl (fun _ h => h)
+  intro g hf
+  have hw : (s.world.set dest X).get db.dir = s.world.get db.dir :=
+    MergeP.get_set_ne _ _ _ _ (fun e => h1 e.symm)
+  exact ⟨by show DirOK (s.world.set dest X) db.dir g; unfold DirOK; rw [hw]; exact hf.dir, hf.asc, hf.active, hf.recs⟩
+
+/-- **restart**: the invariant is re-established from scratch — base = the whole (new) log, excess `0`
+    on the scan path, `S` after an adoption -/
+theorem Acc_restart {dir : String} {s : St} {m : BSpec} {dead : Bool} (hq : HInvQ dir s m dead)
+    (cfg' : Cfg) (hcfg : cfg'.Valid)
+    (hsz : ∀ md, s.world.get (mergeDirName dir) = some md → md.marker ≠ none →
+      ∀ x ∈ md.data, x.2.bytes.size < 2 ^ 32) :
+    ∃ E', Acc E' (openDB (close s).1 dir cfg').1 := by
+  obtain ⟨db, hs, _⟩ := hq.2
+  obtain ⟨db0, g, hs0, hd0, hi0, _, hms0, hfr⟩ := hq.1
+  rw [setB_db hs] at hs0
+  cases hs0
+  have hdir : db.dir = dir := hd0
+  subst hdir
+  have hcl : close (setB none s) = close s := close_setB none s
+  rcases hms0 with hnm | ⟨n, gm, vis, hmo⟩
+  · obtain ⟨d, hdd, _, hopen⟩ := restart_scanX cfg' (setB_db hs none) hi0 hnm.plan hcfg
+    rw [hcl] at hopen
+    have hopen' : openDB (close s).1 db.dir cfg'
+        = (⟨s.world.set db.dir ⟨syncAll d.data, d.hint, d.marker, true⟩, some (scanDB cfg' db.dir db.activeId g)⟩, .ok) := hopen
+    rw [hopen']
+    obtain ⟨d', hd', _, hm⟩ := hi0.dir
+    have hdd' : s.world.get db.dir = some d := hdd
+    have hd2 : s.world.get db.dir = some d' := hd'
+    rw [hdd'] at hd2
+    cases hd2
+    have hinv' := Inv_scanDB (s.world.set db.dir ⟨syncAll d.data, d.hint, d.marker, true⟩) db.dir cfg'
+      ⟨syncAll d.data, d.hint, d.marker, true⟩ g db.activeId (MergeP.get_set_self _ _ _) rfl (Matches_syncAll hm)
+      hi0.asc hi0.recs hi0.active ⟨_, some (scanDB cfg' db.dir db.activeId g)⟩ rfl
+    exact ⟨0, _, g, logOf g, [], [], rfl, hinv'.files, by simp, hfr, Seg_nil, OpenB_nil (fun b hb => by cases hb),
+      ⟨rfl, rfl, rfl⟩⟩
+  · have hF := HintFits_of_sizes hmo hsz
+    obtain ⟨d, md, maxFid, W', _, _, _, _, _, hopen, _, _, hinv', _⟩ :=
+      restart_adoptX cfg' (setB_db hs none) hi0 hmo hF hcfg
+    obtain ⟨_, _, _, _, _, _, _, _, _, hnp, _⟩ := restart_adopt cfg' (setB_db hs none) hi0 hmo hF hcfg
+    rw [hcl] at hopen
+    have hopen' : openDB (close s).1 db.dir cfg'
+        = (⟨W', some (hintDB cfg' db.dir db.activeId (gm ++ hi g n) (sizeSum (logOf (hi gm maxFid))))⟩, .ok) := hopen
+    rw [hopen']
+    exact ⟨sizeSum (logOf (hi gm maxFid)), _, gm ++ hi g n, logOf (gm ++ hi g n), [], [], rfl, hinv'.files, by simp,
+      hnp hfr, Seg_nil, OpenB_nil (fun b hb => by cases hb), ⟨rfl, rfl, rfl⟩⟩
+
+/-- **every call but a restart keeps the invariant with the SAME excess** -/
+theorem Acc_step (dir : String) (E : Nat) (s : St) (σ : SpecSt) (op : HOp) (hi : HInv dir s σ) (ha : Acc E s)
+    (hop : HOpOK dir op) (hwf : isLive σ.slot = true → batchCall op = true) (hst : StepOK dir s op)
+    (hnr : ∀ cfg', op ≠ .restart cfg') : Acc E (hstep dir s op).1 := by
+  cases op with
+  | restart cfg' => exact absurd rfl (hnr cfg')
+  | merge order =>
+    obtain ⟨dead, hq⟩ := quiet_of_wf hi hwf rfl
+    exact Acc_merge hq ha order hop hst
+  | backup dest =>
+    obtain ⟨db0, hs0, hd0⟩ := HInv_open hi
+    exact Acc_backup ha hs0 dest (by rw [hd0]; exact hop.1)
+  | a op =>
+    obtain ⟨m, sl⟩ := σ
+    have hQ : ∀ dead, HInvQ dir s m dead → Acc E (hstep dir s (.a op)).1 := by
+      intro dead hq
+      obtain ⟨db, hs, _⟩ := hq.2
+      have hqd := QuietDB_of_HInvQ hq hs
+      cases op with
+      | put k v => exact Acc_put ha hs hqd k v hop.1 hop.2
+      | del k => exact Acc_delete ha hs hqd k hop
+      | get k =>
+        show Acc E (get s k).1
+        rw [PolicyP.get_state]; exact ha
+      | sync => exact Acc_sync ha hs
+      | bnew sy id => exact Acc_bnew ha hs hqd sy id
+      | bput k v =>
+        show Acc E (bput s k v).1
+        rw [bputQ hq k v]; exact ha
+      | bdel k =>
+        show Acc E (bdel s k).1
+        rw [bdelQ hq k]; exact ha
+      | bget k =>
+        show Acc E (bget s k).1
+        rw [bget_state]; exact ha
+      | bcommit =>
+        show Acc E (bcommit s).1
+        rw [bcommitQ hq]; exact ha
+      | bdrop => exact Acc_bdrop ha hs hqd
+    cases sl with
+    | none => exact hQ false hi
+    | dead => exact hQ true hi
+    | live issued =>
+      obtain ⟨db, g, b, l0, fl, hx, _, _, _⟩ := hi
+      have hid64 : b.id < 2 ^ 64 := by have := hx.core.idlt; omega
+      have hb := hwf rfl
+      cases op with
+      | bput k v =>
+        exact Acc_stageOut ha hx.open_ hx.batch hx.core.live hx.core.stagedOK hid64 (PolicyP.Dur.bput_out hx.open_ hx.batch k v)
+      | bdel k =>
+        exact Acc_stageOut ha hx.open_ hx.batch hx.core.live hx.core.stagedOK hid64 (PolicyP.Dur.bdel_out hx.open_ hx.batch k)
+      | bget k =>
+        show Acc E (bget s k).1
+        rw [bget_state]; exact ha
+      | bcommit =>
+        exact Acc_bcommit ha hx.open_ hx.batch hx.core.live hx.core.stagedOK hx.core.idpos hx.core.idlt
+      | put k v => simp [batchCall] at hb
+      | del k => simp [batchCall] at hb
+      | get k => simp [batchCall] at hb
+      | sync => simp [batchCall] at hb
+      | bnew sy id => simp [batchCall] at hb
+      | bdrop => simp [batchCall] at hb
+
+theorem Acc_fresh (dir : String) (cfg : Cfg) (h : cfg.Valid) : Acc 0 (openDB St.init dir cfg).1 := by
+  rw [openDB_fresh dir cfg h]
+  have hi := Inv_fresh dir cfg
+  refine ⟨_, [(0, [])], [], [], [], rfl, hi.files, rfl, fun id => rfl, Seg_nil, OpenB_nil (fun b hb => by cases hb), ?_⟩
+  exact ⟨rfl, rfl, rfl⟩
+
 end XixiKV.C17H
